@@ -37,7 +37,7 @@ SIMS = ["abrm", "abrm.balanced", "abrm_nd.1", "abrm_nd.2", "abrm_nd.3", "abrm_hp
 
 def bounds(tier):
     return {"simulators": SIMS, "sample alphabet": "amplitudes %s x phases {1, i, e^{i pi/3}}" % (AMP,),
-            "exhaustive length": 2 if tier == "quick" else 3, "seeded lengths": [3, 5, 8] if tier == "quick" else [4, 5, 8, 17, 64, 256],
+            "exhaustive length": "3 (abrm, abrm_hp, blochsim 1-D, abrm_nd 1-D; thorough: all but abrm_ptx), 2 otherwise", "seeded lengths": [3, 5, 8] if tier == "quick" else [4, 5, 8, 17, 64, 256],
             "gradients": [0, 0.5, -0.5, 2], "positions": "1-D: {-2,-0.5,0,0.25,1,3}; 2-D/3-D: 3x3 / 2x2x2 lattices",
             "slr": {"designs": ["dzls", "dzlp", "dzmp", "dzmp reversed", "msinc"], "n": [16, 32, 64], "tb": [2, 4, 8],
                     "scalings": ["1", "sqrt(1/2)"], "random complex": "max|B| in {0.3, 0.9}, n in {8, 16, 33}", "dzrf": "every ptype x ftype"}}
@@ -56,7 +56,7 @@ def gen_cases(tier, seed):
     cases = []
     S = samples()
     waves = []
-    for L in range(1, (3 if T else 2) + 1):
+    for L in range(1, 4):
         for w in itertools.product(range(len(S)), repeat=L):
             waves.append(("ex", list(w)))
     for L in ((4, 5, 8, 17, 64, 256) if T else (3, 5, 8)):
@@ -65,7 +65,7 @@ def gen_cases(tier, seed):
     waves.append(("zero", [4]))
     for sim in SIMS:
         for kind, w in waves:
-            if kind == "ex" and len(w) == 3 and sim not in ("abrm", "abrm_hp", "blochsim.1", "abrm_nd.1"):
+            if kind == "ex" and len(w) == 3 and sim not in ("abrm", "abrm_hp", "blochsim.1", "abrm_nd.1") and not (T and sim != "abrm_ptx"):
                 continue
             for gi in range(3):
                 if kind == "ex" and len(w) >= 2 and gi > 0 and sim in ("abrm_ptx", "abrm_nd.3", "abrm.balanced", "blochsim.nd"):
